@@ -11,7 +11,7 @@ import copy
 import itertools
 
 from .core import AnalysisError
-from .loader import facts, unparse
+from .loader import return_text, facts, unparse
 
 BACKENDS = {
     "object": ("src/vector/backends/object.py", "VectorObject"),
@@ -65,6 +65,19 @@ def _bydim(stmts):
     return out
 
 
+def _expand_predicate(mf, cond):
+    """`helper(inputs)` where helper(p) is `return <conjunction over p>`: the conjuncts with p replaced by the argument"""
+    if isinstance(cond, ast.Call) and isinstance(cond.func, ast.Name) and len(cond.args) == 1 and not cond.keywords:
+        fdef = mf.functions.get(cond.func.id)
+        if fdef is not None and len(fdef.args.args) == 1:
+            fb = [x for x in fdef.body if not (isinstance(x, ast.Expr) and isinstance(x.value, ast.Constant))]
+            if len(fb) == 1 and isinstance(fb[0], ast.Return) and fb[0].value is not None:
+                env = {fdef.args.args[0].arg: cond.args[0]}
+                body = _Sub(env).visit(copy.deepcopy(fb[0].value))
+                return _conj(body)
+    return [cond]
+
+
 def _is_fill_call(mf, call) -> bool:
     """call is `<helper>(outputs, result)` and <helper>(outs, res) is `for o in outs: _replace_data(o, res)` followed by `return res`"""
     if not (isinstance(call, ast.Call) and isinstance(call.func, ast.Name) and [unparse(a) for a in call.args] == ["outputs", "result"] and not call.keywords):
@@ -98,7 +111,9 @@ def extract_array_ufunc(backend: str, repo=None):
     has_else_notimpl = False
     cur = chain
     while True:
-        conds = _conj(cur.test)
+        conds = []
+        for c0 in _conj(cur.test):
+            conds.extend(_expand_predicate(mf, c0))
         uf = None
         nin = None
         kinds: dict[int, str] = {}
@@ -216,6 +231,13 @@ def extract_awkward_behaviors(repo=None):
                 elts = sl.elts if isinstance(sl, ast.Tuple) else [sl]
                 key = tuple(keytext(e, env) for e in elts)
                 val = _Sub(env).visit(copy.deepcopy(st.value))
+                if isinstance(val, ast.Name):
+                    # a named module-level function whose body is one return is the same thing as the lambda it replaces
+                    fdef = mf.functions.get(val.id)
+                    if fdef is not None and not fdef.args.kwonlyargs and not fdef.args.vararg and not fdef.args.kwarg and not fdef.args.defaults:
+                        fb = [x for x in fdef.body if not (isinstance(x, ast.Expr) and isinstance(x.value, ast.Constant))]
+                        if len(fb) == 1 and isinstance(fb[0], ast.Return) and fb[0].value is not None:
+                            val = ast.Lambda(args=fdef.args, body=fb[0].value)
                 if isinstance(val, ast.Lambda):
                     n, txt = _lambda_text(val)
                     table[key] = (n, txt, st.lineno, val)
@@ -404,8 +426,8 @@ def dunder_obligations(ctx, rule, backends=("object", "sympy", "numpy"), names=N
                     continue  # ndarray's own operators route through __array_ufunc__
                 ctx.ob(rule, f"{cls}.{name}", False, "operator method missing", None, rel)
                 continue
-            body = [st for st in fn.body if not (isinstance(st, ast.Expr) and isinstance(st.value, ast.Constant))]
-            got = unparse(body[0].value) if len(body) == 1 and isinstance(body[0], ast.Return) and body[0].value is not None else unparse(fn)[:120]
+            rt = return_text(fn)  # single-assignment locals inlined: `tmp = numpy.add(self, other); return f(self, tmp)` reads `return f(self, numpy.add(self, other))`
+            got = rt[len("return "):] if rt and rt.startswith("return ") else unparse(fn)[:120]
             ctx.ob(rule, f"{cls}.{name}", got in want, f"body is `{got}`, documented meaning is `{want[0]}`", None,
                    f"{rel}:{fn.lineno}", sample={"method": name, "body": got})
             n += 1
